@@ -544,6 +544,30 @@ func (g *gen) probeLine(cfg int, huge bool) (string, string) {
 	return opLine, status
 }
 
+// a dynamic-gas probe given literally (corpus): "cfg op memLen last cgas w0,w1,…"
+func rawProbe(line string) (string, string) {
+	w := strings.Fields(line)
+	cfg, _ := strconv.Atoi(w[0])
+	op, _ := strconv.Atoi(w[1])
+	memLen, _ := strconv.ParseUint(w[2], 10, 64)
+	last, _ := strconv.ParseUint(w[3], 10, 64)
+	cgas, _ := strconv.ParseUint(w[4], 10, 64)
+	var st []uint256.Int
+	if w[5] != "-" {
+		for _, h := range strings.Split(w[5], ",") {
+			v, _ := new(big.Int).SetString(h, 16)
+			st = append(st, u256(v))
+		}
+	}
+	setConfig(cfg)
+	status, gas, memSize := vm.VerifC11DynGas(blockNumber, byte(op), st, memLen, last, cgas)
+	opLine := "gas " + line
+	if status == "ok" {
+		return opLine, fmt.Sprintf("ok %d %d", gas, memSize)
+	}
+	return opLine, status
+}
+
 func (g *gen) precompileInput(addr int) []byte {
 	r := g.r
 	var n int
@@ -639,6 +663,8 @@ func loadCorpus(dir string) (specs []spec, raw [][2]string) {
 				gas, _ := strconv.ParseUint(w[2], 10, 64)
 				specs = append(specs, spec{kind: "C", cfg: cfg, gas: gas, value: new(big.Int).SetBytes(unhexTok(w[3])),
 					code: unhexTok(w[4]), input: unhexTok(w[5]), aux: unhexTok(w[6]), to: target})
+			case "G": // G cfg op memLen lastGasCost contractGas stackTopFirst(hex,comma separated)
+				raw = append(raw, [2]string{"G", strings.Join(w[1:], " ")})
 			case "K": // K cfg gas valueHex initHex
 				cfg, _ := strconv.Atoi(w[1])
 				gas, _ := strconv.ParseUint(w[2], 10, 64)
@@ -692,6 +718,7 @@ func main() {
 	}
 	defer out.Close()
 	curFile = a["ops"] + ".cur"
+	limitAddressSpace()
 	hxnode.BootServices("dev")
 	installPrecompileWrappers()
 	r := hx.NewRng(hx.SeedFromEnv())
@@ -702,9 +729,14 @@ func main() {
 	genKinds := map[string]int{}
 
 	// corpus first
-	specs, _ := loadCorpus(os.Getenv("VERIF_CORPUS"))
+	specs, raws := loadCorpus(os.Getenv("VERIF_CORPUS"))
 	for _, s := range specs {
 		doSpec(out, s, stats)
+		genKinds["corpus"]++
+	}
+	for _, rw := range raws {
+		opl, res := rawProbe(rw[1])
+		out.Emit(opl, res)
 		genKinds["corpus"]++
 	}
 
